@@ -54,13 +54,14 @@ PROPS = {
         ],
         assumptions=[
             'PARTIAL claim. Decided: the entry kind "one specific object, no services required" completely (fold step over the '
-            'abstract bus); for the kind "any object with the given services" only the local contracts of object_created, '
-            'object_destroyed and service_destroyed',
+            'abstract bus); for the kinds with required services the local contracts of AnyObject::{object_created, '
+            'object_destroyed, service_destroyed, service_created} and SpecificObjectWithServices::{service_destroyed, '
+            'service_created}; for the two service_created handlers only the SOUNDNESS half: an object is reported only if every '
+            'required service is present (vstd specifies HashMap::values() in one direction only: every value is yielded)',
         ],
         undecided_clauses=[
-            'entry kinds with required services: SpecificObjectWithServices::{service_created, service_destroyed} and '
-            'AnyObject::service_created use `.values().all(..)` (iterator adapter, closure): not ingestible, so "carries all services the '
-            'entry requires" is not decided',
+            'entry kinds with required services: that an object IS reported as soon as it carries all required services '
+            '(completeness of `.values().all(..)`), and the fold step "mirrors the bus" for these kinds',
             'convergence once activity stops, the Stream implementation (poll_next, restart, current-only mode), pending '
             'notifications, lifetimes (Lifetime / LifetimeScope futures), wait_for / find: async, schedules - outside this family',
             'the dispatch Discoverer::handle_event over several entries (iterator adapters)',
